@@ -197,10 +197,21 @@ def default_if(s, var, ty, env, has_elif=False):
 CVS = "compute_val_score(clf, X, y, batch_size, gemini_objective)"
 
 
-def translate(src):
-    mod = ast.parse(src)
-    fns = [n for n in mod.body if isinstance(n, ast.FunctionDef) and n.name == "_run_path"]
-    outer_fns = [n for n in mod.body if isinstance(n, ast.FunctionDef) and n.name == "_path"]
+def top_level_functions():
+    """Top-level function definitions of every module of gemclus/sparse (the helpers may live in any of them)."""
+    import glob
+    defs = {}
+    for f in sorted(glob.glob(os.path.join(REPO, "gemclus", "sparse", "*.py"))):
+        for n in ast.parse(open(f).read()).body:
+            if isinstance(n, ast.FunctionDef):
+                defs.setdefault(n.name, []).append(n)
+    return defs
+
+
+def translate(src=None):
+    defs = top_level_functions()
+    fns = defs.get("_run_path", [])
+    outer_fns = defs.get("_path", [])
     if len(fns) != 1 or len(outer_fns) != 1:
         fail("functions _path / _run_path not found exactly once")
     fn = fns[0]
@@ -332,7 +343,7 @@ def translate(src):
         "iteration_gemini_score": ("iteration_gemini_score", "OT"), "keep_threshold": ("keep_threshold", "T"),
         "best_gemini_score": ("best_gemini_score", "OT")})
     # the compute_val_score line that forms the weighted penalty
-    cvs = [n for n in mod.body if isinstance(n, ast.FunctionDef) and n.name == "compute_val_score"]
+    cvs = defs.get("compute_val_score", [])
     if len(cvs) != 1:
         fail("compute_val_score not found")
     if "validation_l1 = clf._group_lasso_penalty() * clf.alpha" not in [ast.unparse(s) for s in cvs[0].body]:
@@ -429,7 +440,7 @@ End Rules.
 
 def main():
     try:
-        D = translate(open(SRC).read())
+        D = translate()
     except (Unknown, SyntaxError, OSError) as e:
         print(f"tr_pathrules: FAIL-CLOSED: {e}")
         sys.exit(1)
